@@ -176,6 +176,12 @@ def run_shard(job):
                                      'inputs': [(k, _enc(v)) for k, v in e.current_inputs()],
                                      'notes': list(e.path_notes)})
         if every and state['trace'] is not None and (n + offset) % every == 0 and not e.path_violated:
+            mm = e.margin_model()
+            if mm is not None:
+                e._set_model(mm)
+            elif e.margin_terms():
+                state['ties'] = state.get('ties', 0) + 1
+                return      # the path exists only at an exact tie of two instants: not comparable in floats
             inputs = e.current_inputs()
             sym_obs = _concretize_obj(state['trace'], e)
             try:
